@@ -478,6 +478,34 @@ func genTriggers(repo, out string) {
 	writeIfChanged(filepath.Join(out, "Triggers.lean"), b.String())
 }
 
+// genScaleUp: the skeleton of Controller.ScaleUp (pkg/controller/scale_up.go): what it asks of the cloud, when it takes the lock
+func genScaleUp(repo, out string) {
+	su := parse(filepath.Join(repo, "pkg/controller/scale_up.go"))
+	var b strings.Builder
+	b.WriteString("/- GENERATED by /verif/extract from /repo/pkg/controller/scale_up.go (ScaleUp) — do not edit. -/\nimport Esc.Gen.Arith\nnamespace Esc.Gen\n\n")
+	a := &ar{fn: "scaleUpFn"}
+	body := "  (0, true, false, 0, false, 0) -- not found"
+	if fd := findFunc(su, "ScaleUp"); fd != nil && fd.Body != nil {
+		a.atoms = map[string][2]string{}
+		a.fieldVars = map[string]string{"opts.nodesDelta": "nodesDelta"}
+		a.callAtoms = map[string][][2]string{
+			"c.scaleUpUntaint(opts)":                {{"untaintedIn", "I"}, {"untaintErr", "B"}},
+			"c.scaleUpCloudProviderNodeGroup(opts)": {{"addedIn", "I"}, {"addErr", "B"}},
+		}
+		a.callPre = map[string]string{"c.scaleUpCloudProviderNodeGroup(opts)": "let askedCloud_ : Bool := true\nlet asked_ : Int := nodesDelta"}
+		a.stmtAtoms = map[string]string{"opts.nodeGroup.scaleUpLock.lock(added)": "let locked_ : Bool := true\nlet lockedWith_ : Int := added"}
+		a.markInert(fd.Body.List, map[string]bool{})
+		body = "  let nodesDelta : Int := want\n  let askedCloud_ : Bool := false\n  let asked_ : Int := 0\n  let locked_ : Bool := false\n  let lockedWith_ : Int := 0\n" +
+			a.block(fd.Body.List, env{"nodesDelta": kI}, "  ")
+	} else {
+		a.unknown++
+	}
+	b.WriteString("/-- `ScaleUp`: (value returned, an error is returned, `scaleUpCloudProviderNodeGroup` was called, with which `nodesDelta`, the\n    scale-up lock was taken, with how many nodes). `untaintedIn` / `untaintErr`: what `scaleUpUntaint` returned; `addedIn` / `addErr`:\n    what `scaleUpCloudProviderNodeGroup` returned. -/\n")
+	b.WriteString("def scaleUp (want untaintedIn : Int) (untaintErr : Bool) (addedIn : Int) (addErr : Bool) : Int × Bool × Bool × Int × Bool × Int :=\n" + body + "\n\n")
+	fmt.Fprintf(&b, "def numScaleUpUnknown : Nat := %d\n\nend Esc.Gen\n", a.unknown)
+	writeIfChanged(filepath.Join(out, "ScaleUp.lean"), b.String())
+}
+
 func genReap(repo, out string) {
 	sd := parse(filepath.Join(repo, "pkg/controller/scale_down.go"))
 	var b strings.Builder
